@@ -368,6 +368,10 @@ class BinaryStrOperator():
         self.left = toks[0]
         self.right = toks[2]
         self.op = toks[1]
+        for i in (self.left, self.right):
+            if not hasattr(i, 'evalExpressionToString'):
+                raise ParseError("Invalid syntax: operator '{}' requires string operands, got: {}"
+                                    .format(self.op, i))
 
     def __eq__(self, other):
         return isinstance(other, BinaryStrOperator) and \
@@ -427,6 +431,8 @@ class IfExpressionParser:
             ret = self.__ifgrammer.parse_string(expression, True)
         except pyparsing.ParseBaseException as e:
             raise ParseError("Invalid syntax: " + str(e))
+        except RecursionError:
+            raise ParseError("Invalid syntax: expression nested too deeply")
         return ret[0]
 
     @classmethod
@@ -554,6 +560,8 @@ class Env(MutableMapping):
             return StringParser(self, self.funs, self.funArgs, nounset).parse(value)
         except ParseError as e:
             raise ParseError("Error substituting {}: {}".format(prop, str(e.slogan)))
+        except RecursionError:
+            raise ParseError("Error substituting {}: nested too deeply".format(prop))
 
     def evaluate(self, condition, prop):
         if condition is None:
@@ -628,6 +636,8 @@ def funMatch(args, **options):
             return "false"
     except re.error as e:
         raise ParseError("Invalid $(match) regex '{}': {}".format(e.pattern, e))
+    except (OverflowError, RecursionError) as e:
+        raise ParseError("Invalid $(match) regex '{}': {}".format(args[1], e))
 
 def funIfThenElse(args, **options):
     if len(args) != 3: raise ParseError("if-then-else expects three arguments")
@@ -711,6 +721,8 @@ def funResubst(args, **options):
         return re.sub(args[0], args[1], args[2], flags=flags)
     except re.error as e:
         raise ParseError("Invalid $(resubst) regex '{}': {}".format(e.pattern, e))
+    except (OverflowError, RecursionError) as e:
+        raise ParseError("Invalid $(resubst) regex '{}': {}".format(args[0], e))
 
 # Attention: do *not* add any new functions here. That will break existing
 # plugins that define a function with the same name. Use EXTRA_STRING_FUNS for
